@@ -62,6 +62,8 @@ pub enum Sev {
     DataFuture(u16),
     // --- either role ---
     Error(u16),
+    /// a well-formed ERROR whose message has this many characters (longer than small receive buffers)
+    ErrorLong(u16, u16),
     Garbage(#[serde(with = "crate::common::hexbytes")] Vec<u8>),
     Oack,
     StrayAck(u16),
@@ -139,7 +141,12 @@ pub enum Ev {
     },
     Rx {
         t: Duration,
+        /// what the worker's receive buffer held (truncated to size + 4)
         bytes: Vec<u8>,
+        /// what the peer put on the wire
+        orig_len: usize,
+        /// the datagram on the wire was a well-formed ERROR (even if truncation cut its terminator)
+        wire_error: bool,
     },
     RxTimeout {
         t: Duration,
@@ -652,6 +659,7 @@ impl Env {
                     None => continue,
                 },
                 Sev::Error(code) => Some(refcodec::error(*code % 8, "injected")),
+                Sev::ErrorLong(code, n) => Some(refcodec::error(*code % 8, &"e".repeat((*n as usize).min(2000)))),
                 Sev::Garbage(g) => Some(g.clone()),
                 Sev::Oack => Some(vec![0, 6, b'b', b'l', b'k', b's', b'i', b'z', b'e', 0, b'8', 0]),
                 Sev::StrayAck(n) => Some(refcodec::ack(*n)),
@@ -770,6 +778,8 @@ impl Socket for SimSocket {
             Some((dt, mut bytes)) => {
                 tftpd::verif::advance(dt);
                 let t = tftpd::verif::virtual_now();
+                let orig_len = bytes.len();
+                let wire_error = matches!(refcodec::decode(&bytes), RDec::Ok(RPacket::Error { .. }));
                 // exactly what a UDP socket read into a buffer of size + 4 bytes returns
                 bytes.truncate(size + 4);
                 // the protocol's accept rule, for the disk oracle
@@ -782,7 +792,7 @@ impl Socket for SimSocket {
                         }
                     }
                 }
-                st.trace.push(Ev::Rx { t, bytes: bytes.clone() });
+                st.trace.push(Ev::Rx { t, bytes: bytes.clone(), orig_len, wire_error });
                 drop(st);
                 Ok(Packet::deserialize(&bytes)?)
             }
